@@ -2,12 +2,14 @@ package main
 
 import (
 	"context"
+	"encoding/binary"
 	"fmt"
 	"strings"
 
 	bin "github.com/gagliardetto/binary"
 	"github.com/gagliardetto/solana-go"
 	"github.com/ipfs/go-cid"
+	"github.com/ipld/go-car/util"
 	carv2 "github.com/ipld/go-car/v2"
 	"github.com/rpcpool/yellowstone-faithful/ipld/ipldbindcode"
 	solanatxmetaparsers "github.com/rpcpool/yellowstone-faithful/solana-tx-meta-parsers"
@@ -92,6 +94,9 @@ func readSectionFromReaderAt(reader ReaderAtCloser, offset uint64, length uint64
 }
 
 func readNodeFromReaderAtWithOffsetAndSize(reader ReaderAtCloser, wantedCid *cid.Cid, offset uint64, length uint64) ([]byte, error) {
+	if length > uint64(util.MaxAllowedSectionSize)+binary.MaxVarintLen64 { // Don't OOM: the size comes from an index file
+		return nil, fmt.Errorf("section size %d is bigger than util.MaxAllowedSectionSize", length)
+	}
 	// read MaxVarintLen64 bytes
 	section := make([]byte, length)
 	_, err := reader.ReadAt(section, int64(offset))
